@@ -147,6 +147,14 @@ func (pi *pkgInfo) qualifiedCallee(call *ast.CallExpr) string {
 			}
 		}
 	}
+	if f, ok := call.Fun.(*ast.SelectorExpr); ok {
+		if id, ok := f.X.(*ast.Ident); ok {
+			if _, ok := pi.info.Uses[id].(*types.PkgName); ok {
+				return pi.calleeName(call) // a function of another package
+			}
+		}
+		return "" // a function value held in a field or variable of the program itself
+	}
 	return pi.calleeName(call)
 }
 
@@ -259,6 +267,10 @@ func main() {
 	var writes []write
 	type pcall struct{ caller, callerRecv, method, on string }
 	var ptrCalls []pcall
+	// functions that assign through a pointer / slice / map parameter: function object -> parameter indices
+	paramWriters := map[types.Object]map[int]bool{}
+	funcLocals := map[*ast.FuncDecl]map[types.Object]string{}
+	var funcDecls []*ast.FuncDecl
 
 	// package-level variables that are sliced, address-taken, or (being slices, maps or pointers)
 	// handed to a function: the callee, or whoever keeps the slice, can change them without any
@@ -324,6 +336,31 @@ func main() {
 				continue
 			}
 			locals := lib.localPointers(fd.Body, recvObj, recvIsPtr)
+			funcLocals[fd] = locals
+			funcDecls = append(funcDecls, fd)
+			paramIndex := map[types.Object]int{}
+			if fd.Type.Params != nil {
+				k := 0
+				for _, p := range fd.Type.Params.List {
+					for _, n := range p.Names {
+						if o := lib.info.Defs[n]; o != nil {
+							paramIndex[o] = k
+						}
+						k++
+					}
+				}
+			}
+			noteParamWrite := func(lhs ast.Expr) {
+				if id, through := rootIdent(lhs); id != nil && through {
+					if o := lib.info.Uses[id]; o != nil && ptrParams[o] {
+						fo := lib.info.Defs[fd.Name]
+						if paramWriters[fo] == nil {
+							paramWriters[fo] = map[int]bool{}
+						}
+						paramWriters[fo][paramIndex[o]] = true
+					}
+				}
+			}
 			// walk with closure depth tracking
 			var walk func(n ast.Node, closure *ast.FuncLit)
 			walk = func(n ast.Node, closure *ast.FuncLit) {
@@ -369,8 +406,23 @@ func main() {
 											}
 										}
 										on := exprText(sel.X)
-										if id, ok := sel.X.(*ast.Ident); ok && recvObj != nil && lib.info.Uses[id] == recvObj {
-											on = "self"
+										if id, ok := sel.X.(*ast.Ident); ok {
+											obj := lib.info.Uses[id]
+											switch {
+											case recvObj != nil && obj == recvObj:
+												on = "self"
+											case obj != nil && !pkgVars[obj] && !ptrParams[obj] && obj.Parent() != lib.pkg.Scope():
+												// a variable of this function: a value (its address is taken for the
+												// call — private to the call) or a pointer that only ever holds objects
+												// created here
+												if _, isPtr := obj.Type().Underlying().(*types.Pointer); !isPtr {
+													if !isParam(fd, lib.info, obj) {
+														on = "local"
+													}
+												} else if locals[obj] == "fresh" {
+													on = "local"
+												}
+											}
 										}
 										callee := s.Name()
 										if pt, ok := sig.Recv().Type().(*types.Pointer); ok {
@@ -385,11 +437,13 @@ func main() {
 						}
 					case *ast.AssignStmt:
 						for _, lhs := range x.Lhs {
+							noteParamWrite(lhs)
 							lib.classifyWrite(name, lhs, x.Tok, recvObj, recvIsPtr, ptrParams, pkgVars, closure, fd, locals, func(f, l, c string) {
 								writes = append(writes, write{f, l, c})
 							})
 						}
 					case *ast.IncDecStmt:
+						noteParamWrite(x.X)
 						lib.classifyWrite(name, x.X, token.ASSIGN, recvObj, recvIsPtr, ptrParams, pkgVars, closure, fd, locals, func(f, l, c string) {
 							writes = append(writes, write{f, l, c})
 						})
@@ -398,6 +452,66 @@ func main() {
 				})
 			}
 			walk(fd.Body, nil)
+		}
+	}
+
+	// A function that assigns through a parameter is harmless when it is unexported and every call
+	// of it passes, for that parameter, a variable of the caller that only ever holds objects the
+	// caller created itself (make, a literal, new, &T{…}).
+	escaping := map[string]bool{} // by function name as used in `writes`
+	for fo, idxs := range paramWriters {
+		name := fo.Name()
+		var decl *ast.FuncDecl
+		for _, fd := range funcDecls {
+			if lib.info.Defs[fd.Name] == fo {
+				decl = fd
+			}
+		}
+		if decl != nil {
+			name = funcName(decl)
+		}
+		if ast.IsExported(fo.Name()) {
+			escaping[name] = true
+			continue
+		}
+		called := false
+		for _, fd := range funcDecls {
+			ast.Inspect(fd.Body, func(n ast.Node) bool {
+				call, ok := n.(*ast.CallExpr)
+				if !ok {
+					return true
+				}
+				var callee types.Object
+				switch f := call.Fun.(type) {
+				case *ast.Ident:
+					callee = lib.info.Uses[f]
+				case *ast.SelectorExpr:
+					callee = lib.info.Uses[f.Sel]
+				}
+				if callee != fo {
+					return true
+				}
+				called = true
+				for i := range idxs {
+					if i >= len(call.Args) {
+						escaping[name] = true
+						continue
+					}
+					id, ok := call.Args[i].(*ast.Ident)
+					if !ok || funcLocals[fd][lib.info.Uses[id]] != "fresh" {
+						escaping[name] = true
+					}
+				}
+				return true
+			})
+		}
+		if !called {
+			escaping[name] = true // a function value taken somewhere, or dead code: not shown to be local
+		}
+	}
+	for i := range writes {
+		if strings.HasPrefix(writes[i].cat, "paramelem") && !escaping[writes[i].fn] {
+			writes[i].cat = "freshparam"
 		}
 	}
 
@@ -444,7 +558,9 @@ func main() {
 	b.WriteString("(pkgvar: a package-level variable; recvfield: a field of the pointer receiver itself; recvdeep: something reached\n")
 	b.WriteString("through a field of the pointer receiver; paramelem: through a pointer/slice/map parameter; captured: a variable\n")
 	b.WriteString("captured by a function literal; freshfield: through a local pointer that only ever holds objects created in the\n")
-	b.WriteString("same call; ptrfield: through any other local pointer). Paths are normalised: the root is recv / param / new, every\n")
+	b.WriteString("same call; freshparam: through a parameter of an unexported function every call of which passes an object its caller has\n")
+	b.WriteString("just created; ptrfield: through any other local pointer). recvdeep / paramelem / ptrfield carry the struct type of this\n")
+	b.WriteString("package whose field is assigned, when there is one: \"recvdeep:reqSet\". Paths are normalised: the root is recv / param / new, every\n")
 	b.WriteString("index is []. -/\n")
 	b.WriteString("def sharedWrites : List (String × String × String) := [")
 	for i, w := range writes {
@@ -455,6 +571,19 @@ func main() {
 	}
 	b.WriteString("]\n\n")
 
+	b.WriteString("/-- Methods that assign to, or through, their receiver (pointer receivers; value receivers of slice or map type). -/\n")
+	{
+		seen := map[string]bool{}
+		var names []string
+		for _, w := range writes {
+			if (strings.HasPrefix(w.cat, "recvfield") || strings.HasPrefix(w.cat, "recvdeep")) && !seen[w.fn] {
+				seen[w.fn] = true
+				names = append(names, w.fn)
+			}
+		}
+		sort.Strings(names)
+		fmt.Fprintf(&b, "def receiverWriters : List String := %s\n\n", qlist(names))
+	}
 	b.WriteString("/-- Call sites of pointer-receiver methods of the package: caller, caller's receiver kind, callee, receiver expression\n(`self` = the caller's own receiver). -/\n")
 	b.WriteString("def pointerMethodCalls : List (String × String × String × String) := [")
 	for i, c := range ptrCalls {
@@ -813,11 +942,15 @@ func (pi *pkgInfo) localPointers(body *ast.BlockStmt, recvObj types.Object, recv
 		if obj == nil {
 			return
 		}
-		if _, isPtr := obj.Type().Underlying().(*types.Pointer); !isPtr {
+		switch obj.Type().Underlying().(type) {
+		case *types.Pointer, *types.Slice, *types.Map:
+		default:
 			return
 		}
 		cls := "unknown"
 		switch r := rhs.(type) {
+		case *ast.CompositeLit:
+			cls = "fresh" // a slice or map literal
 		case *ast.UnaryExpr:
 			if r.Op == token.AND {
 				if _, ok := r.X.(*ast.CompositeLit); ok {
@@ -827,9 +960,17 @@ func (pi *pkgInfo) localPointers(body *ast.BlockStmt, recvObj types.Object, recv
 				}
 			}
 		case *ast.CallExpr:
-			if f, ok := r.Fun.(*ast.Ident); ok && f.Name == "new" {
+			if f, ok := r.Fun.(*ast.Ident); ok && (f.Name == "new" || f.Name == "make") {
 				if _, ok := pi.info.Uses[f].(*types.Builtin); ok {
 					cls = "fresh"
+				}
+			}
+			// x = append(x, …): stays what it was
+			if f, ok := r.Fun.(*ast.Ident); ok && f.Name == "append" && len(r.Args) > 0 {
+				if a0, ok := r.Args[0].(*ast.Ident); ok && (pi.info.Uses[a0] == obj || pi.info.Defs[a0] == obj) {
+					if old, seen := res[obj]; seen {
+						cls = old
+					}
 				}
 			}
 		}
@@ -895,6 +1036,26 @@ func (pi *pkgInfo) classifyWrite(fn string, lhs ast.Expr, tok token.Token, recvO
 	if obj == nil {
 		return
 	}
+	// the struct type (of this package) whose field is being assigned, if any: "…:reqSet"
+	owner := ""
+	if sel, ok := lhs.(*ast.SelectorExpr); ok {
+		t := pi.info.Types[sel.X].Type
+		if pt, ok := t.(*types.Pointer); ok {
+			t = pt.Elem()
+		}
+		if nt, ok := t.(*types.Named); ok && nt.Obj().Pkg() == pi.pkg {
+			if _, isStruct := nt.Underlying().(*types.Struct); isStruct {
+				owner = ":" + nt.Obj().Name()
+			}
+		}
+	}
+	recvIsRef := false
+	if obj == recvObj && recvObj != nil && !recvIsPtr {
+		switch obj.Type().Underlying().(type) {
+		case *types.Slice, *types.Map:
+			recvIsRef = true // a value receiver of slice or map type shares its elements with the caller
+		}
+	}
 	switch {
 	case pkgVars[obj]:
 		add(fn, pathText(lhs, id.Name), "pkgvar")
@@ -902,10 +1063,12 @@ func (pi *pkgInfo) classifyWrite(fn string, lhs ast.Expr, tok token.Token, recvO
 		if pathDepth(lhs) == 1 {
 			add(fn, pathText(lhs, "recv"), "recvfield")
 		} else {
-			add(fn, pathText(lhs, "recv"), "recvdeep")
+			add(fn, pathText(lhs, "recv"), "recvdeep"+owner)
 		}
+	case recvIsRef && through:
+		add(fn, pathText(lhs, "recv"), "recvdeep"+owner)
 	case ptrParams[obj] && through:
-		add(fn, pathText(lhs, "param"), "paramelem")
+		add(fn, pathText(lhs, "param"), "paramelem"+owner)
 	case closure != nil && tok != token.DEFINE && !(obj.Pos() >= closure.Pos() && obj.Pos() <= closure.End()):
 		add(fn, pathText(lhs, id.Name), "captured")
 	case through:
@@ -915,13 +1078,30 @@ func (pi *pkgInfo) classifyWrite(fn string, lhs ast.Expr, tok token.Token, recvO
 				case c == "fresh":
 					add(fn, pathText(lhs, "new"), "freshfield")
 				case strings.HasPrefix(c, "recv:"):
-					add(fn, pathText(lhs, "("+c[5:]+")"), "recvdeep")
+					add(fn, pathText(lhs, "("+c[5:]+")"), "recvdeep"+owner)
 				default:
-					add(fn, pathText(lhs, id.Name), "ptrfield")
+					add(fn, pathText(lhs, id.Name), "ptrfield"+owner)
 				}
 			}
 		}
 	}
+}
+
+// isParam: is obj one of the function's parameters (or results)?
+func isParam(fd *ast.FuncDecl, info *types.Info, obj types.Object) bool {
+	for _, fl := range []*ast.FieldList{fd.Type.Params, fd.Type.Results} {
+		if fl == nil {
+			continue
+		}
+		for _, p := range fl.List {
+			for _, n := range p.Names {
+				if info.Defs[n] == obj {
+					return true
+				}
+			}
+		}
+	}
+	return false
 }
 
 // plainType: data without hidden state (see packageVarKinds).
